@@ -592,15 +592,23 @@ func tryInsertLiteral(ad *classad.ClassAd, attr, valueStr string) error {
 	if len(valueStr) > 0 && (valueStr[0] == '-' || (valueStr[0] >= '0' && valueStr[0] <= '9')) {
 		// Try integer first
 		if !strings.Contains(valueStr, ".") {
-			if val, err := strconv.ParseInt(strings.TrimSpace(valueStr), 10, 64); err == nil {
-				_ = ad.Set(attr, val) // ClassAd.Set always returns nil, safe to ignore
-				return nil
+			// Only the canonical decimal form is an integer literal to the ClassAd
+			// lexer ("007" is an error there, not 7).
+			if t := strings.TrimSpace(valueStr); isCanonicalInt(t) {
+				if val, err := strconv.ParseInt(t, 10, 64); err == nil {
+					_ = ad.Set(attr, val) // ClassAd.Set always returns nil, safe to ignore
+					return nil
+				}
 			}
 		} else {
 			// Try float
-			if val, err := strconv.ParseFloat(strings.TrimSpace(valueStr), 64); err == nil {
-				_ = ad.Set(attr, val) // ClassAd.Set always returns nil, safe to ignore
-				return nil
+			// ParseFloat also accepts forms the ClassAd lexer rejects ("1.", hex
+			// floats, digit separators); leave those to the full parser.
+			if t := strings.TrimSpace(valueStr); isClassAdReal(t) {
+				if val, err := strconv.ParseFloat(t, 64); err == nil {
+					_ = ad.Set(attr, val) // ClassAd.Set always returns nil, safe to ignore
+					return nil
+				}
 			}
 		}
 	}
@@ -610,7 +618,7 @@ func tryInsertLiteral(ad *classad.ClassAd, attr, valueStr string) error {
 	if len(trimmed) >= 2 && trimmed[0] == '"' && trimmed[len(trimmed)-1] == '"' {
 		// Simple string without escape sequences
 		unquoted := trimmed[1 : len(trimmed)-1]
-		if !strings.Contains(unquoted, "\\") {
+		if !strings.ContainsAny(unquoted, "\\\"") {
 			_ = ad.Set(attr, unquoted) // ClassAd.Set always returns nil, safe to ignore
 			return nil
 		}
@@ -618,6 +626,53 @@ func tryInsertLiteral(ad *classad.ClassAd, attr, valueStr string) error {
 
 	// Not a simple literal, caller should use full parser
 	return fmt.Errorf("not a simple literal")
+}
+
+// isCanonicalInt reports whether s is -?(0|[1-9][0-9]*), the only integer spelling
+// the ClassAd lexer accepts (after an optional unary minus).
+func isCanonicalInt(s string) bool {
+	s = strings.TrimPrefix(s, "-")
+	if s == "" || (len(s) > 1 && s[0] == '0') {
+		return false
+	}
+	for i := 0; i < len(s); i++ {
+		if s[i] < '0' || s[i] > '9' {
+			return false
+		}
+	}
+	return true
+}
+
+// isClassAdReal reports whether s is -?D+.D+([eE][+-]?D+)?, the real-literal
+// spelling shared by the ClassAd lexer and strconv.ParseFloat.
+func isClassAdReal(s string) bool {
+	s = strings.TrimPrefix(s, "-")
+	i := 0
+	digits := func() int {
+		n := 0
+		for i < len(s) && s[i] >= '0' && s[i] <= '9' {
+			i++
+			n++
+		}
+		return n
+	}
+	if digits() == 0 || i >= len(s) || s[i] != '.' {
+		return false
+	}
+	i++
+	if digits() == 0 {
+		return false
+	}
+	if i < len(s) && (s[i] == 'e' || s[i] == 'E') {
+		i++
+		if i < len(s) && (s[i] == '+' || s[i] == '-') {
+			i++
+		}
+		if digits() == 0 {
+			return false
+		}
+	}
+	return i == len(s)
 }
 
 // decodeOldClassAdString decodes the content between the quotes of an OLD-ClassAd
